@@ -84,6 +84,11 @@ def explore(label: str, cfg: Dict[str, Any], budget: int, rng: random.Random, ch
         for p in rng.sample(paths, min(25, len(paths))):
             if p[-1] in LEAF_PARAMS:
                 batch.append((list(p) + LEAF_PARAMS[p[-1]], False, False, "tree:" + str(p[-1]), "wellformed"))
+        # every path of the live tree is a request by itself (no parameters after the last name): it is answered, whatever
+        # its handler would have liked to find behind it (power requests left out: they would end the exploration)
+        bare = [p for p in paths if str(p[-1]) not in ("shutdown", "reset", "startup")]
+        for p in rng.sample(bare, min(30, len(bare))):
+            batch.append((list(p), False, False, "bare:" + str(p[-1]), "bare"))
         # mutations of a sample of well-formed requests
         for (req, isact, exist, aname, _) in rng.sample(batch, min(30, len(batch))):
             obs, leaf = rq.dry_run(sim, req)
